@@ -185,3 +185,65 @@ Theorem C15_number_slots_predicate_exact : forall panicked failed want got,
   panicked = false /\ failed = false /\ want <> [] /\ got = want.
 Proof. exact number_slots_ok_exact. Qed.
 Print Assumptions C15_number_slots_predicate_exact.
+
+(* ---- JSON / XML / YAML documents with drawn names (differential, as the number slots) ---- *)
+
+Theorem C15_doc_leaves_predicate_exact : forall panicked failed want got,
+  doc_leaves_ok panicked failed want got = true <->
+  panicked = false /\ failed = false /\ want <> [] /\ got = want.
+Proof. exact doc_leaves_ok_exact. Qed.
+Print Assumptions C15_doc_leaves_predicate_exact.
+
+(* ---- histories: one codec value used for several calls ---- *)
+
+(* byte stream / text consumer: the answers to a history are, call by call, the answers of the
+   calls alone (no state is carried), and each satisfies the single-call predicate the check
+   evaluates (outside the F-C15-2 situation) *)
+Theorem C15_consume_history_pointwise : forall cd bufm1 pol close_opt l,
+  length (consume_history cd bufm1 pol close_opt l) = length l /\
+  (forall k x, nth_error l k = Some x ->
+     nth_error (consume_history cd bufm1 pol close_opt l) k =
+       Some (consume cd bufm1 pol close_opt (live (fst x)) (snd x))) /\
+  (forall k x e, nth_error l k = Some x ->
+     let r := consume cd bufm1 pol close_opt (live (fst x)) (snd x) in
+     c_out r = ORet e -> call_excepted cd x = false ->
+     consume_ok cd close_opt (fst x) (snd x) false e (c_stored r) (c_closes r) = true).
+Proof. exact consume_history_pointwise. Qed.
+Print Assumptions C15_consume_history_pointwise.
+
+Theorem C15_produce_history_pointwise : forall cd bufm1 close_opt l,
+  length (produce_history cd bufm1 close_opt l) = length l /\
+  (forall k x, nth_error l k = Some x ->
+     nth_error (produce_history cd bufm1 close_opt l) k =
+       Some (produce cd bufm1 close_opt (fst (fst x)) (snd (fst x)) (snd x))) /\
+  (forall k x e, nth_error l k = Some x ->
+     let r := produce cd bufm1 close_opt (fst (fst x)) (snd (fst x)) (snd x) in
+     p_out r = ORet e ->
+     produce_ok cd close_opt (fst (fst x)) (snd (fst x)) (snd x) false e (p_got r) (p_wcloses r) (p_pcloses r) = true).
+Proof. exact produce_history_pointwise. Qed.
+Print Assumptions C15_produce_history_pointwise.
+
+(* JSON / XML / YAML calls inside a history (encoders not modelled): what the predicates accept.
+   Produce: success only on a healthy writer, the sink then holds exactly what it held ++ the
+   document a fresh producer writes (nothing stale in front of it) and that reads back as the
+   value; a failure is an error and the sink holds a prefix. Consume: success only on a healthy
+   reader and the destination then reads as the value. *)
+Theorem C15_doc_produce_predicate_exact : forall wfail pre full panicked e got want back,
+  doc_produce_ok wfail pre full panicked e got want back = true <->
+  panicked = false /\
+  match e with
+  | None => wfail = false /\ got = pre ++ full /\ want <> [] /\ back = want
+  | Some _ => wfail = true /\ exists r, pre ++ full = got ++ r
+  end.
+Proof. exact doc_produce_ok_exact. Qed.
+Print Assumptions C15_doc_produce_predicate_exact.
+
+Theorem C15_doc_consume_predicate_exact : forall rfail panicked e want got,
+  doc_consume_ok rfail panicked e want got = true <->
+  panicked = false /\
+  match e with
+  | None => rfail = false /\ want <> [] /\ got = want
+  | Some _ => rfail = true
+  end.
+Proof. exact doc_consume_ok_exact. Qed.
+Print Assumptions C15_doc_consume_predicate_exact.
